@@ -25,19 +25,22 @@ VARIABLES l,        \* next line of the trace
           digs,     \* digest of each member's observation at its birth
           groupers, \* groupers of the current scenario
           gdigs,
+          vdigs,    \* digests of the typed views obtained so far
           tainted,  \* the current scenario had a rejected / unspecified event: skip its remainder
           bad,      \* rejected events <<scn, i, kind>>
           herr,     \* harness errors (table misses): <<scn, i>>
           stats     \* [judged, skipped, unspec]
-vars == <<l, frames, digs, groupers, gdigs, tainted, bad, herr, stats>>
+vars == <<l, frames, digs, groupers, gdigs, vdigs, tainted, bad, herr, stats>>
 
-Init == /\ l = 1 /\ frames = <<>> /\ digs = <<>> /\ groupers = <<>> /\ gdigs = <<>>
+Init == /\ l = 1 /\ frames = <<>> /\ digs = <<>> /\ groupers = <<>> /\ gdigs = <<>> /\ vdigs = <<>>
         /\ tainted = FALSE /\ bad = {} /\ herr = {}
         /\ stats = [judged |-> 0, skipped |-> 0, unspec |-> 0]
 
-Persist(e, D, GD) ==
+\* C01: every earlier frame, grouper and view is re-observed after the step and must be as at birth
+Persist(e, D, GD, VD) ==
   /\ \A k \in 1..Len(e.reobs) : e.reobs[k][2] = D[e.reobs[k][1] + 1]
   /\ \A k \in 1..Len(e.greobs) : e.greobs[k][2] = GD[e.greobs[k][1] + 1]
+  /\ \A k \in 1..Len(e.vreobs) : e.vreobs[k][2] = VD[e.vreobs[k][1] + 1]
 
 Next ==
   /\ l <= Len(Trace)
@@ -48,21 +51,22 @@ Next ==
          Gr == IF first THEN <<>> ELSE groupers
          D  == IF first THEN <<>> ELSE digs
          GD == IF first THEN <<>> ELSE gdigs
+         VD == IF first THEN <<>> ELSE vdigs
          tn == IF first THEN FALSE ELSE tainted
      IN
      IF tn THEN
-        /\ UNCHANGED <<frames, digs, groupers, gdigs, bad, herr>>
+        /\ UNCHANGED <<frames, digs, groupers, gdigs, vdigs, bad, herr>>
         /\ tainted' = TRUE
         /\ stats' = [stats EXCEPT !.skipped = @ + 1]
      ELSE IF e.pan = 1 THEN
         /\ bad' = bad \cup {<<e.scn, e.i, "panic">>}
         /\ tainted' = TRUE
-        /\ frames' = Fr /\ digs' = D /\ groupers' = Gr /\ gdigs' = GD
+        /\ frames' = Fr /\ digs' = D /\ groupers' = Gr /\ gdigs' = GD /\ vdigs' = VD
         /\ UNCHANGED herr
         /\ stats' = [stats EXCEPT !.judged = @ + 1]
      ELSE
         LET j == Judge(e, Fr, Gr)
-            pers == Persist(e, D, GD)
+            pers == Persist(e, D, GD, VD)
         IN
         /\ bad' = bad \cup (IF j.miss THEN {} ELSE IF ~j.ok THEN {<<e.scn, e.i, "result">>} ELSE {})
                       \cup (IF pers THEN {} ELSE {<<e.scn, e.i, "persist">>})
@@ -72,6 +76,7 @@ Next ==
         /\ digs' = D \o j.newd
         /\ groupers' = Gr \o j.newg
         /\ gdigs' = GD \o j.newgd
+        /\ vdigs' = VD \o j.newvd
         /\ stats' = [stats EXCEPT !.judged = @ + 1, !.unspec = @ + (IF j.unspec THEN 1 ELSE 0)]
 
 Spec == Init /\ [][Next]_vars
